@@ -57,7 +57,7 @@ def gen_case(rng, tier, idx):
     cfg = T.gen_config(rng)
     n = rng.randint(1, 14)
     base = "~~%d" % rng.randint(0, 10 ** 6)
-    lines = [T.gen_line(rng, cfg, "%s~%d~~" % (base, i)) if rng.random() > 0.08 else
+    lines = [T.gen_line(rng, cfg, "%s~%d~~" % (base, i), host_suffix=True) if rng.random() > 0.08 else
              # a command line carrying several credentials
              T.gen_line(rng, cfg, "%s~%d~~" % (base, i), kinds=["pw", "pw", "pw", "fill", "ip"], nslots=rng.randint(3, 5)) for i in range(n)]
     entry = rng.choice(["content", "content", "file", "provider", "provider_file"])
@@ -264,6 +264,9 @@ def run_case(spec, ctx):
                         ctx.violation("sensitive-token-only-partly-replaced", {"kind": "ip", "original": shown, "slot_after_cleaning": got, "line": T.render(ls), "output": outs[0]})
                 elif k in ("fqdn", "short", "otherhost") and check_hn:
                     ctx.count("slots_checked_for_residue")
+                    suffix = shown[len(v):]
+                    if suffix and got.endswith(suffix):
+                        got = got[:len(got) - len(suffix)]
                     if got not in subs_hn:
                         ctx.violation("sensitive-token-only-partly-replaced", {"kind": k, "original": v, "slot_after_cleaning": got, "line": T.render(ls), "output": outs[0]})
                 elif k == "mac" and check_mac and v.lower() not in ("00:00:00:00:00:00", "ff:ff:ff:ff:ff:ff") and v not in subs_mac:
